@@ -1,37 +1,45 @@
-/- `next_power_of_2` (sketch.rs) smears 32 bits: for every requested width `1 ≤ ctrs ≤ 2^32` the count-min sketch built by
-   `Sketch.new` has an even number of counters ≥ 2, so its rows and its mask fit together (the geometry half of
-   `Sketch.WF`), without looking at the constructed value. -/
+/- `next_power_of_2` (sketch.rs, repaired) smears all 64 bits: for EVERY requested width `1 ≤ ctrs < 2^64` the count-min
+   sketch built by `Sketch.new` has an even number of counters ≥ 2, so its rows and its mask fit together (the geometry
+   half of `Sketch.WF`), without looking at the constructed value.
+   (Before the repair only 32 bits were smeared: widths just above 2^32 gave an odd counter count and the largest
+   masked position indexed one byte past the row — found by the `bigsketch` probe of C05, see DESIGN §11.4.) -/
 import Caches.Model.Sketch
 import Caches.Lemmas.Sketch
 set_option linter.unusedSectionVars false
 set_option linter.unusedVariables false
 namespace M
 
-/-- the five smearing steps on naturals -/
+/-- the six smearing steps on naturals -/
 def smear (n : Nat) : Nat :=
   let n := n ||| (n >>> 1)
   let n := n ||| (n >>> 2)
   let n := n ||| (n >>> 4)
   let n := n ||| (n >>> 8)
-  n ||| (n >>> 16)
+  let n := n ||| (n >>> 16)
+  n ||| (n >>> 32)
 
-theorem smear_lt (n : Nat) (h : n < 2 ^ 32) : smear n < 2 ^ 32 := by
+theorem smear_lt (n : Nat) (h : n < 2 ^ 64) : smear n < 2 ^ 64 := by
   unfold smear
-  have s : ∀ m k, m < 2 ^ 32 → m ||| (m >>> k) < 2 ^ 32 := fun m k hm =>
+  have s : ∀ m k, m < 2 ^ 64 → m ||| (m >>> k) < 2 ^ 64 := fun m k hm =>
     Nat.or_lt_two_pow hm (Nat.lt_of_le_of_lt (Nat.shiftRight_le m k) hm)
-  exact s _ 16 (s _ 8 (s _ 4 (s _ 2 (s _ 1 h))))
+  exact s _ 32 (s _ 16 (s _ 8 (s _ 4 (s _ 2 (s _ 1 h)))))
 
-/-- any set bit below 32 ends up in bit 0 -/
-theorem smear_bit0 (n i : Nat) (hi : i < 32) (hb : n.testBit i = true) : (smear n).testBit 0 = true := by
+/-- any set bit below 64 ends up in bit 0 -/
+theorem smear_bit0 (n i : Nat) (hi : i < 64) (hb : n.testBit i = true) : (smear n).testBit 0 = true := by
   unfold smear
   simp only [Nat.testBit_or, Nat.testBit_shiftRight]
   have : i = 0 ∨ i = 1 ∨ i = 2 ∨ i = 3 ∨ i = 4 ∨ i = 5 ∨ i = 6 ∨ i = 7 ∨ i = 8 ∨ i = 9 ∨ i = 10 ∨ i = 11 ∨ i = 12 ∨
       i = 13 ∨ i = 14 ∨ i = 15 ∨ i = 16 ∨ i = 17 ∨ i = 18 ∨ i = 19 ∨ i = 20 ∨ i = 21 ∨ i = 22 ∨ i = 23 ∨ i = 24 ∨
-      i = 25 ∨ i = 26 ∨ i = 27 ∨ i = 28 ∨ i = 29 ∨ i = 30 ∨ i = 31 := by omega
+      i = 25 ∨ i = 26 ∨ i = 27 ∨ i = 28 ∨ i = 29 ∨ i = 30 ∨ i = 31 ∨ i = 32 ∨ i = 33 ∨ i = 34 ∨ i = 35 ∨ i = 36 ∨
+      i = 37 ∨ i = 38 ∨ i = 39 ∨ i = 40 ∨ i = 41 ∨ i = 42 ∨ i = 43 ∨ i = 44 ∨ i = 45 ∨ i = 46 ∨ i = 47 ∨ i = 48 ∨
+      i = 49 ∨ i = 50 ∨ i = 51 ∨ i = 52 ∨ i = 53 ∨ i = 54 ∨ i = 55 ∨ i = 56 ∨ i = 57 ∨ i = 58 ∨ i = 59 ∨ i = 60 ∨
+      i = 61 ∨ i = 62 ∨ i = 63 := by omega
   rcases this with rfl | rfl | rfl | rfl | rfl | rfl | rfl | rfl | rfl | rfl | rfl | rfl | rfl | rfl | rfl | rfl | rfl |
-    rfl | rfl | rfl | rfl | rfl | rfl | rfl | rfl | rfl | rfl | rfl | rfl | rfl | rfl | rfl <;> simp [hb]
+    rfl | rfl | rfl | rfl | rfl | rfl | rfl | rfl | rfl | rfl | rfl | rfl | rfl | rfl | rfl | rfl | rfl | rfl | rfl | rfl |
+    rfl | rfl | rfl | rfl | rfl | rfl | rfl | rfl | rfl | rfl | rfl | rfl | rfl | rfl | rfl | rfl | rfl | rfl | rfl | rfl |
+    rfl | rfl | rfl | rfl | rfl | rfl | rfl <;> simp [hb]
 
-theorem exists_bit (n : Nat) (h0 : n ≠ 0) (h : n < 2 ^ 32) : ∃ i, i < 32 ∧ n.testBit i = true := by
+theorem exists_bit (n : Nat) (h0 : n ≠ 0) (h : n < 2 ^ 64) : ∃ i, i < 64 ∧ n.testBit i = true := by
   obtain ⟨i, hi⟩ := Nat.exists_testBit_of_ne_zero h0
   refine ⟨i, ?_, hi⟩
   apply Classical.byContradiction
@@ -40,36 +48,35 @@ theorem exists_bit (n : Nat) (h0 : n ≠ 0) (h : n < 2 ^ 32) : ∃ i, i < 32 ∧
   rw [Nat.testBit_lt_two_pow this] at hi
   cases hi
 
-/-- a non-zero 32-bit number smears to an odd number -/
-theorem smear_odd (n : Nat) (h0 : n ≠ 0) (h : n < 2 ^ 32) : smear n % 2 = 1 := by
+/-- a non-zero 64-bit number smears to an odd number -/
+theorem smear_odd (n : Nat) (h0 : n ≠ 0) (h : n < 2 ^ 64) : smear n % 2 = 1 := by
   obtain ⟨i, hi, hb⟩ := exists_bit n h0 h
   have := smear_bit0 n i hi hb
   simpa using this
 
-/-- `nextPow2` on the machine integers is `smear (n - 1) + 1` on naturals, for widths up to `2^32` -/
-theorem nextPow2_toNat (ctrs : Nat) (h1 : 1 ≤ ctrs) (h2 : ctrs ≤ 2 ^ 32) :
-    (nextPow2 (UInt64.ofNat ctrs)).toNat = smear (ctrs - 1) + 1 := by
-  have hlt : ctrs < 2 ^ 64 := Nat.lt_of_le_of_lt h2 (by decide)
+/-- `nextPow2` on the machine integers is `(smear (n - 1) + 1) mod 2^64` on naturals -/
+theorem nextPow2_toNat (ctrs : Nat) (h1 : 1 ≤ ctrs) (h2 : ctrs < 2 ^ 64) :
+    (nextPow2 (UInt64.ofNat ctrs)).toNat = (smear (ctrs - 1) + 1) % 2 ^ 64 := by
   have hof : (UInt64.ofNat ctrs).toNat = ctrs := by
-    simp [UInt64.toNat_ofNat', Nat.mod_eq_of_lt hlt]
+    simp [UInt64.toNat_ofNat', Nat.mod_eq_of_lt h2]
   have hsub : (UInt64.ofNat ctrs - 1).toNat = ctrs - 1 := by
     rw [UInt64.toNat_sub_of_le _ _ (by rw [UInt64.le_iff_toNat_le, hof]; exact h1), hof]; rfl
-  have hs := smear_lt (ctrs - 1) (by omega)
   unfold nextPow2
   simp only [UInt64.toNat_add, UInt64.toNat_or, UInt64.toNat_shiftRight, hsub]
   have e : smear (ctrs - 1) =
       (let n := ctrs - 1
        let n := n ||| (n >>> 1); let n := n ||| (n >>> 2); let n := n ||| (n >>> 4); let n := n ||| (n >>> 8)
-       n ||| (n >>> 16)) := rfl
+       let n := n ||| (n >>> 16)
+       n ||| (n >>> 32)) := rfl
   simp only [] at e
-  simp only [show (1 : UInt64).toNat % 64 = 1 from rfl, show (2 : UInt64).toNat % 64 = 2 from rfl,
+  simp only [show (2 : UInt64).toNat % 64 = 2 from rfl,
     show (4 : UInt64).toNat % 64 = 4 from rfl, show (8 : UInt64).toNat % 64 = 8 from rfl,
-    show (16 : UInt64).toNat % 64 = 16 from rfl, show (1 : UInt64).toNat = 1 from rfl, ← e]
-  exact Nat.mod_eq_of_lt (by omega)
+    show (16 : UInt64).toNat % 64 = 16 from rfl, show (32 : UInt64).toNat % 64 = 32 from rfl,
+    show (1 : UInt64).toNat = 1 from rfl, ← e]
 
-/-- the geometry of every sketch `CountMinSketch::new` builds for `1 ≤ ctrs ≤ 2^32`: four non-empty rows of
+/-- the geometry of every sketch `CountMinSketch::new` builds, for every width that is a `u64`: four non-empty rows of
     well-formed bytes, each long enough for every position the mask lets through -/
-theorem Sketch.new_geometry (ctrs : Nat) (sch : Scheme) (h1 : 1 ≤ ctrs) (h2 : ctrs ≤ 2 ^ 32) :
+theorem Sketch.new_geometry (ctrs : Nat) (sch : Scheme) (h1 : 1 ≤ ctrs) (h2 : ctrs < 2 ^ 64) :
     ∃ s, Sketch.new ctrs sch = some s ∧ s.rows.length = 4 ∧ s.scheme = sch ∧
       ∀ r ∈ s.rows, Row.WF r ∧ s.mask.toNat / 2 < r.length := by
   have hc := nextPow2_toNat ctrs h1 h2
@@ -79,7 +86,6 @@ theorem Sketch.new_geometry (ctrs : Nat) (sch : Scheme) (h1 : 1 ≤ ctrs) (h2 : 
   simp only [hn, if_false]
   refine ⟨_, rfl, rfl, rfl, ?_⟩
   intro r hr
-  -- every row is `Row.new h`
   have hrow : r = Row.new ((if nextPow2 (UInt64.ofNat ctrs) < 2 then 2 else nextPow2 (UInt64.ofNat ctrs)) / 2).toNat := by
     simp only [List.mem_cons, List.mem_nil_iff, or_false] at hr
     rcases hr with h | h | h | h <;> exact h
@@ -94,18 +100,23 @@ theorem Sketch.new_geometry (ctrs : Nat) (sch : Scheme) (h1 : 1 ≤ ctrs) (h2 : 
       have := hsmall; rw [UInt64.lt_iff_toNat_lt] at this
       have e2 : (2 : UInt64).toNat = 2 := rfl
       omega
-    -- c = smear (ctrs-1) + 1 ≥ 2, so ctrs - 1 ≠ 0 and the smear is odd: c is even
+    -- c = (smear (ctrs-1) + 1) mod 2^64 ≥ 2: no wrap happened, ctrs - 1 ≠ 0, the smear is odd, so c is even
     have hne : ctrs - 1 ≠ 0 := by
       intro h0
       rw [hc, h0] at hge
       have : smear 0 = 0 := by decide
-      omega
+      rw [this] at hge; simp at hge
     have hodd := smear_odd (ctrs - 1) hne (by omega)
+    have hnowrap : (smear (ctrs - 1) + 1) % 2 ^ 64 = smear (ctrs - 1) + 1 := by
+      by_cases hw : smear (ctrs - 1) + 1 < 2 ^ 64
+      · exact Nat.mod_eq_of_lt hw
+      · have : smear (ctrs - 1) + 1 = 2 ^ 64 := by omega
+        rw [hc, this] at hge; simp at hge
     have hsub : (nextPow2 (UInt64.ofNat ctrs) - 1).toNat = (nextPow2 (UInt64.ofNat ctrs)).toNat - 1 := by
       rw [UInt64.toNat_sub_of_le _ _ (by rw [UInt64.le_iff_toNat_le]; have e1 : (1 : UInt64).toNat = 1 := rfl; omega)]; rfl
     have hdiv : (nextPow2 (UInt64.ofNat ctrs) / 2).toNat = (nextPow2 (UInt64.ofNat ctrs)).toNat / 2 := by
       rw [UInt64.toNat_div]; rfl
-    rw [hsub, hdiv, hc]
+    rw [hsub, hdiv, hc, hnowrap]
     omega
 
 end M
